@@ -256,6 +256,10 @@ def scn_results(T, case):
 def cases_chain_requests(tier):
     for kind in ("functions", "both", "functions-then-gradients"):
         yield "%s/R2P2N2" % kind, {"kind": kind, "R": 2, "P": 2, "N": 2, "B": 1, "K": 1, "tr": True, "prefix": "C11.chain"}
+        # more realizations than perturbations and the other way round (the request table is laid out realization by realization,
+        # perturbation by perturbation: with equal counts a mix-up of the two is invisible)
+        for (R, P, N) in ((3, 2, 1), (3, 1, 2), (2, 3, 1)) + (((4, 2, 2), (1, 3, 2), (5, 2, 1)) if tier == "thorough" else ()):
+            yield "%s/R%dP%dN%d" % (kind, R, P, N), {"kind": kind, "R": R, "P": P, "N": N, "B": 1, "K": 0, "tr": True, "prefix": "C11.chain"}
     yield "functions/batch2", {"kind": "functions", "R": 2, "P": 1, "N": 1, "B": 2, "K": 0, "tr": True, "prefix": "C11.chain"}
 
 
@@ -347,6 +351,23 @@ def scn_steps(T, case):
     stepcontract.scenario(T, case, "C11")
 
 
+# ------------------------------------------------------------------------------------ back-transformed differences when a constraint transform is configured as well
+def cases_info_both_transforms(tier):
+    from contracts import C13
+
+    for cid, c in C13.cases_transform(tier):
+        if c["var_tr"]:
+            yield cid, dict(c, prefix="C11.info")
+
+
+def scn_info_both_transforms(T, case):
+    """The user-domain bound and linear differences of a result are the variable transform's back-transformed ones also when a
+    non-linear constraint transform is configured next to it (every combination of groups; C13's scenario under this property's prefix)."""
+    from contracts import C13
+
+    C13.scn_transform(T, case)
+
+
 SCENARIOS = [
     Scenario("evaluator_requests_in_user_coordinates", scn_chain_requests, cases_chain_requests, {"quick": 3, "thorough": 20}),
     Scenario("scaler_round_trip_and_bounds", scn_scaler, cases_scaler, {"quick": 10, "thorough": 100}),
@@ -356,6 +377,7 @@ SCENARIOS = [
     Scenario("results_back_transform", scn_results, cases_results, {"quick": 10, "thorough": 100}),
     Scenario("user_domain_results", scn_user_results, cases_user_results, {"quick": 3, "thorough": 20}),
     Scenario("plan_steps_hand_over", scn_steps, cases_steps, {"quick": 1, "thorough": 2}),
+    Scenario("constraint_info_with_variable_and_constraint_transforms", scn_info_both_transforms, cases_info_both_transforms, {"quick": 5, "thorough": 30}),
 ]
 
 MANIFEST = {
